@@ -199,6 +199,16 @@ static Reg r_geo("nn_geo", [](const Args& a) {
   emit(std::to_string(searches) + " " + std::to_string(fails));
 });
 
+// nn_bin kind seed n bucket | B <hex of Save(os, true)> T <tokens of Save(os, false)>
+static Reg r_bin("nn_bin", [](const Args& a) {
+  int kind = std::stoi(a[0]); uint64_t seed = std::stoull(a[1]); int n = std::stoi(a[2]), bucket = std::stoi(a[3]);
+  std::vector<Pt> pts = make_points(kind, seed, n); DistFn df{kind}; NN nn(pts, df, bucket);
+  std::ostringstream b, t; nn.Save(b, true); nn.Save(t, false);
+  static const char* d = "0123456789abcdef"; std::string hex; for (unsigned char c : b.str()) { hex += d[c >> 4]; hex += d[c & 15]; }
+  std::string out = "B " + hex + " T"; for (auto& s : split_ws(t.str())) out += " " + s;
+  emit(out);
+});
+
 // deterministic token-level mutations of the text image
 inline void mutate_tokens(std::vector<std::string>& t, Rng& r, int n, int nmut) {
   for (int m = 0; m < nmut && !t.empty(); ++m) {
@@ -336,6 +346,7 @@ inline void generate(Rng& r, bool thorough) {
     int kind = r.irange(0, 3), n = r.irange(1, 40);
     stratum("nn:load-mutated-tokens"); run("nn_load", {S(kind), S(r.next() % 1000000), S(n), S(r.irange(0, 10)), S(r.next() % 1000000000), S(r.irange(0, 9) == 0 ? 0 : r.irange(1, 3)), S(r.next() % 1000000), S(r.irange(1, 4))});
   }
+  for (int i = 0; i < (thorough ? 2000 : 200); ++i) { stratum("nn:binary-layout"); run("nn_bin", {S(r.irange(0, 4)), S(r.next() % 1000000), S(i < 3 ? i : r.irange(0, 120)), S(r.irange(0, 10))}); }
   for (int i = 0; i < 3; ++i) { stratum("nn:load-shared-children"); run("nn_loaddag", {S(r.irange(30, 60)), S(i)}); }
   for (int i = 0; i < NL; ++i) {
     int kind = r.irange(0, 3), n = r.irange(1, 40); bool bin = r.coin();
